@@ -18,7 +18,7 @@ import (
 func runIsolated(suiteName string, ops []string, emit func(string)) {
 	var ses [][]string
 	for _, o := range ops {
-		if strings.HasPrefix(o, "reset") || strings.HasPrefix(o, "f ") || strings.HasPrefix(o, "h ") || strings.HasPrefix(o, "k ") || strings.HasPrefix(o, "d ") || len(ses) == 0 {
+		if strings.HasPrefix(o, "reset") || strings.HasPrefix(o, "f ") || strings.HasPrefix(o, "h ") || strings.HasPrefix(o, "k ") || strings.HasPrefix(o, "p ") || strings.HasPrefix(o, "e ") || strings.HasPrefix(o, "d ") || len(ses) == 0 {
 			ses = append(ses, nil)
 		}
 		ses[len(ses)-1] = append(ses[len(ses)-1], o)
